@@ -99,16 +99,6 @@ Proof.
   - apply bw_bytes_view; auto.
 Qed.
 
-Lemma bw_read_from_view cap p w k X w' k' ok : view w k X -> bw_read_from cap w k p = (w', k', ok) ->
-  view w' k' (X ++ p) /\ (ok = false -> full k') /\ (full k -> full k').
-Proof.
-  intros Hv. unfold bw_read_from. destruct (bw_bytes cap w k p) as [[w1 k1] ok1] eqn:Eb.
-  destruct (bw_bytes_view _ _ _ _ _ _ _ _ Hv Eb) as (A & B & C). destruct ok1.
-  - destruct (cap <=? length (bw_buf w1))%nat.
-    + intros H. destruct (bw_flush_view _ _ _ _ _ _ A H) as (A2 & B2 & _ & C2). split; [auto|split; auto].
-    + intros H; injection H as <- <- <-. split; [auto|split; auto].
-  - intros H; injection H as <- <- <-. split; [auto|split; auto].
-Qed.
 
 Lemma write_pieces_buf_view cap ps : forall w k X w' k' ok, view w k X -> write_pieces_buf cap w k ps = (w', k', ok) ->
   view w' k' (X ++ concat ps) /\ (ok = false -> full k') /\ (full k -> full k').
@@ -139,6 +129,52 @@ Proof.
     rewrite HX, Hd1, H, app_nil_r, app_assoc. auto.
 Qed.
 
+Lemma view_any w w' k X : view w k X -> full k -> view w' k X.
+Proof. intros (Hl & Hle & rest & HX & _) Hf. repeat split; auto. exists rest. auto. Qed.
+
+Lemma view_append w k X q : view w k X -> bw_err w = false ->
+  view {| bw_buf := bw_buf w ++ q; bw_err := false |} k (X ++ q).
+Proof.
+  intros (Hl & Hle & rest & HX & Hd) He. repeat split; auto. exists (rest ++ q). split.
+  - rewrite HX, app_assoc. auto.
+  - destruct Hd as [[_ Hr]|Hf]; [left; cbn; rewrite Hr; auto|right; auto].
+Qed.
+
+Lemma bw_direct_view w k X p w' k' ok : bw_buf w = [] -> bw_err w = false -> view w k X ->
+  bw_direct w k p = (w', k', ok) ->
+  view w' k' (X ++ p) /\ (ok = false -> full k') /\ (full k -> full k').
+Proof.
+  intros Hb He Hv. unfold bw_direct. destruct (sink_write k p) as [[k1 n] ok1] eqn:Ew.
+  destruct (sink_write_view _ _ _ _ _ _ _ Hb He Hv Ew) as (A & B & C). destruct ok1; intros H; injection H as <- <- <-.
+  - split; [auto|split; auto].
+  - split; [eapply view_any; eauto|split; auto].
+Qed.
+
+(* bufio.Writer.Write, as the goroutine copying a child's output calls it *)
+Lemma bw_write_view cap p w k X w' k' ok : view w k X -> bw_write cap w k p = (w', k', ok) ->
+  view w' k' (X ++ p) /\ (ok = false -> full k') /\ (full k -> full k').
+Proof.
+  intros Hv. unfold bw_write. destruct (bw_err w) eqn:Ee.
+  - intros H; injection H as <- <- <-. pose proof (view_err _ _ _ Hv Ee). split; [apply view_ext; auto|split; auto].
+  - destruct (length p <=? cap - length (bw_buf w))%nat.
+    + intros H; injection H as <- <- <-. split; [apply view_append; auto|split; [discriminate|auto]].
+    + destruct (bw_buf w) as [|b0 buf] eqn:Eb.
+      * apply bw_direct_view; auto.
+      * set (a := (cap - length (b0 :: buf))%nat).
+        pose proof (view_append w k X (firstn a p) Hv Ee) as Hv0. rewrite Eb in Hv0.
+        destruct (bw_flush {| bw_buf := (b0 :: buf) ++ firstn a p; bw_err := false |} k) as [[w1 k1] ok1] eqn:Ef.
+        destruct (bw_flush_view _ _ _ _ _ _ Hv0 Ef) as (A & Bf & Cok & Cfull).
+        assert (Hsplit : (X ++ firstn a p) ++ skipn a p = X ++ p) by (rewrite <- app_assoc, firstn_skipn; auto).
+        destruct ok1.
+        -- destruct (Cok eq_refl) as (He1 & Hb1).
+           destruct (length (skipn a p) <=? cap)%nat.
+           ++ intros H; injection H as <- <- <-. split; [|split; [discriminate|auto]].
+              pose proof (view_append w1 k1 _ (skipn a p) A He1) as Hv2. rewrite Hb1, Hsplit in Hv2. exact Hv2.
+           ++ intros H. destruct (bw_direct_view _ _ _ _ _ _ _ Hb1 He1 A H) as (A2 & B2 & C2). rewrite Hsplit in A2.
+              split; [auto|split; auto].
+        -- intros H; injection H as <- <- <-. rewrite <- Hsplit. split; [apply view_ext; auto|split; auto].
+Qed.
+
 Lemma write_pieces_direct_view w ps : bw_buf w = [] -> bw_err w = false -> forall k X k' ok, view w k X ->
   write_pieces_direct k ps = (k', ok) -> view w k' (X ++ concat ps) /\ (ok = false -> full k') /\ (full k -> full k').
 Proof.
@@ -165,15 +201,15 @@ Lemma pinv_frame s s' : st_out s' = st_out s -> st_sink s' = st_sink s -> st_out
   pinv s -> pinv s'.
 Proof. intros H1 H2 H3 H4. unfold pinv. rewrite H1, H2, H3, H4. auto. Qed.
 
-Lemma touch_eq s n : st_out (touch E s n) = st_out s /\ st_sink (touch E s n) = st_sink s /\ st_outs (touch E s n) = st_outs s /\
-  st_log (touch E s n) = st_log s.
+Lemma touch_eq s : st_out (touch E s) = st_out s /\ st_sink (touch E s) = st_sink s /\ st_outs (touch E s) = st_outs s /\
+  st_log (touch E s) = st_log s.
 Proof.
-  unfold touch. destruct (negb (is_osfile (e_mode E)) && any_cmd (st_outs s)); cbn [st_outs set_overlap];
+  unfold touch. destruct (negb (is_osfile (e_mode E)) && any_active (st_outs s)); cbn [st_outs set_overlap];
   match goal with |- context [if ?c then set_unmod _ else _] => destruct c end; cbn; auto.
 Qed.
 
-Lemma pinv_touch s n : pinv s -> pinv (touch E s n).
-Proof. destruct (touch_eq s n) as (A & B & C & D). apply pinv_frame; auto. Qed.
+Lemma pinv_touch s : pinv s -> pinv (touch E s).
+Proof. destruct (touch_eq s) as (A & B & C & D). apply pinv_frame; auto. Qed.
 
 (* what every helper guarantees: the invariant, a full sink stays full, the table is untouched *)
 Definition step_ok (s s' : state) : Prop :=
@@ -182,8 +218,8 @@ Definition step_ok (s s' : state) : Prop :=
 Lemma flush_stdout_pinv s : pinv s -> step_ok s (fst (flush_stdout E s)) /\ (snd (flush_stdout E s) = false -> sfull (fst (flush_stdout E s))).
 Proof.
   intros Hp. unfold flush_stdout, step_ok. destruct (e_mode E) eqn:Em; cbn [fst snd]; try (split; [split; [auto|split; auto]|discriminate]).
-  pose proof (pinv_touch s 0%nat Hp) as Hp1. destruct (touch_eq s 0%nat) as (A & B & C & D). unfold sfull. rewrite <- B, <- C.
-  set (s1 := touch E s 0%nat) in *. destruct Hp1 as (Hv & Hm & Hc).
+  pose proof (pinv_touch s Hp) as Hp1. destruct (touch_eq s) as (A & B & C & D). unfold sfull. rewrite <- B, <- C.
+  set (s1 := touch E s) in *. destruct Hp1 as (Hv & Hm & Hc).
   destruct (bw_flush (st_out s1) (st_sink s1)) as [[w k] ok] eqn:Ef. cbn [fst snd].
   destruct (bw_flush_view _ _ _ _ _ _ Hv Ef) as (Hv1 & Hfail & _ & Hfull).
   split; [split; [|split; [exact Hfull|reflexivity]]|exact Hfail].
@@ -197,8 +233,8 @@ Proof. intros Hp. apply flush_stdout_pinv; auto. Qed.
 Lemma write_stdout_pinv s ps : pinv s -> step_ok s (fst (write_stdout E s ps)).
 Proof.
   intros Hp. unfold write_stdout, step_ok.
-  pose proof (pinv_touch s (length (concat ps)) Hp) as Hp1. destruct (touch_eq s (length (concat ps))) as (A & B & C & D). unfold sfull. rewrite <- B, <- C.
-  set (s1 := touch E s (length (concat ps))) in *. destruct Hp1 as (Hv & Hm & Hc).
+  pose proof (pinv_touch s Hp) as Hp1. destruct (touch_eq s) as (A & B & C & D). unfold sfull. rewrite <- B, <- C.
+  set (s1 := touch E s) in *. destruct Hp1 as (Hv & Hm & Hc).
   destruct (e_mode E) eqn:Em; cbv beta iota; cbn [st_out st_sink add_log].
   - destruct Hm as (Hb & He). destruct (write_pieces_direct (st_sink s1) ps) as [k ok] eqn:Ew. cbn [fst].
     destruct (write_pieces_direct_view _ ps Hb He _ _ _ _ Hv Ew) as (Hv1 & _ & Hfull).
@@ -245,8 +281,8 @@ Proof.
       * cbn [fst snd]. split; [|intros _; apply Hcg; auto]. split; [|split; auto].
         rewrite <- (Hid (set_unmod (add_log s (EvChildOut data)))). apply (Hpi _ _ true); auto. apply view_ext; auto.
       * match goal with |- context [if ?c then set_unmod ?x else ?x] => destruct c end; cbn [st_out st_sink set_unmod add_log];
-        (destruct (bw_read_from cap (st_out s) (st_sink s) data) as [[w k] ok] eqn:Ew; cbn [fst snd];
-         destruct (bw_read_from_view _ _ _ _ _ _ _ _ Hv Ew) as (Hv1 & Hfail & Hfull);
+        (destruct (bw_write cap (st_out s) (st_sink s) data) as [[w k] ok] eqn:Ew; cbn [fst snd];
+         destruct (bw_write_view _ _ _ _ _ _ _ _ Hv Ew) as (Hv1 & Hfail & Hfull);
          split; [|exact Hfail]; split; [|split; [exact Hfull|reflexivity]]).
         -- apply (Hpi _ _ true); auto.
         -- apply (Hpi _ _ false); auto.
@@ -255,17 +291,8 @@ Qed.
 Lemma child_eof_pinv s cg : pinv s -> (cg = true -> sfull s) ->
   step_ok s (fst (child_eof E s cg)) /\ (snd (child_eof E s cg) = false -> sfull (fst (child_eof E s cg))).
 Proof.
-  intros Hp Hcg. unfold child_eof, step_ok.
-  assert (Hsame : (pinv s /\ (sfull s -> sfull s) /\ st_outs s = st_outs s) /\ (negb cg = false -> sfull s)).
-  { split; [split; [auto|split; auto]|]. destruct cg; cbn [negb]; [auto|discriminate]. }
-  destruct (e_mode E) eqn:Em; cbv beta iota; cbn [fst snd]; auto.
-  destruct cg; cbn [fst snd]; [split; [split; [auto|split; auto]|auto]|].
-  destruct Hp as (Hv & Hm & Hc). unfold sfull in *.
-  destruct (bw_read_from cap (st_out s) (st_sink s) []) as [[w k] ok] eqn:Ew. cbn [fst snd].
-  destruct (bw_read_from_view _ _ _ _ _ _ _ _ Hv Ew) as (Hv1 & Hfail & Hfull). rewrite app_nil_r in Hv1.
-  split; [|exact Hfail]. split; [|split; [exact Hfull|reflexivity]].
-  unfold pinv. cbn [st_out st_sink st_outs st_log set_out]. rewrite Em.
-  split; [exact Hv1|split; [auto|]]. intros n0 o Hin Hcg0. apply Hfull. eapply Hc; eauto.
+  intros Hp Hcg. unfold child_eof, step_ok. cbn [fst snd].
+  split; [split; [auto|split; auto]|]. destruct cg; cbn [negb]; [auto|discriminate].
 Qed.
 
 Lemma pinv_add_log s e : (match e with EvWrite WStdout _ | EvChildOut _ => False | _ => True end) -> pinv s -> pinv (add_log s e).
@@ -291,12 +318,10 @@ Proof.
   intros Hp. unfold start_proc, step_ok. cbn [fst snd].
   set (s1 := add_log s (EvStart c (stdout_pending E s) (bw_err (st_out s)))).
   assert (Hp1 : pinv s1) by (apply pinv_add_log; auto; exact I).
-  assert (Hcg : (match e_mode E with Buf _ => bw_err (st_out s) | _ => false end) = true -> sfull s).
-  { destruct (e_mode E); try discriminate. intros He. destruct Hp as (Hv & _). eapply view_err; eauto. }
   destruct (c_sink (e_spec E c)) as [t|].
-  - split; [split; [|split]|]; auto.
-    + apply pinv_add_log; [exact I|]. apply pinv_set_fs. auto.
-  - split; [split; [|split]|]; auto.
+  - split; [split; [|split]|discriminate]; auto.
+    apply pinv_add_log; [exact I|]. apply pinv_set_fs. auto.
+  - split; [split; [|split]|discriminate]; auto.
 Qed.
 
 Lemma deliver_pinv s n o data : pinv s -> (os_cgfail o = true -> sfull s) ->
@@ -414,7 +439,7 @@ Proof.
   unfold flush_out_err, flush_stdout. destruct (e_mode E) eqn:Em; cbn [fst].
   - destruct Hp1 as (_ & Hm & _). rewrite Em in Hm. tauto.
   - destruct Hp1 as (_ & Hm & _). rewrite Em in Hm. tauto.
-  - destruct (touch_eq s1 0%nat) as (T1 & T2 & _). pose proof (pinv_touch s1 0%nat Hp1) as (Hv & _).
+  - destruct (touch_eq s1) as (T1 & T2 & _). pose proof (pinv_touch s1 Hp1) as (Hv & _).
     destruct (bw_flush _ _) as [[w k] ok] eqn:Ef. cbn [fst st_out set_out].
     destruct (bw_flush_view _ _ _ _ _ _ Hv Ef) as (_ & _ & Hok & _).
     intros He. destruct ok; [apply Hok; auto|].
@@ -492,7 +517,7 @@ Proof.
       destruct (close_ostream_pinv (set_outs s (aremove n (st_outs s))) n os (pinv_aremove s n Hp)) as (A & _).
       { intros Hc. apply (pinv_lookup _ _ _ Hp El Hc). }
       destruct (close_ostream E _ n os) as [[s1 code] err]. cbn [fst] in *. apply pinv_add_obs.
-      apply if_unmod_pinv. apply if_print_errorf_pinv. apply pinv_add_log; [exact I|auto].
+      apply if_print_errorf_pinv. apply pinv_add_log; [exact I|auto].
   - destruct (alookup n (st_outs s)) as [os|] eqn:El; cbn [fst]; apply pinv_add_obs.
     + apply flush_named_pinv; auto.
     + apply (if_print_errorf_pinv true); auto.
